@@ -92,6 +92,12 @@ def oracle(ctx, cases):
 def run(ctx):
     runner.prove(ctx, MODULE, THEOREMS, FILES)
     cases = substcorr.batch(ctx, ctx.n(90, 700), customs=False)
+    from d42 import schema
+    corpus = [(schema.list([..., schema.dict({"a": schema.int, "b": schema.int}), ...]), [{"a": 1}, {"a": 1, "b": 2}]),
+              (schema.list([..., schema.dict({"a": schema.int}), ...]), [{"a": 1}, {"a": 2}]),
+              (schema.any(schema.dict({"a": schema.int, "b": schema.int}), schema.dict({"a": schema.int})), {"a": 1})]
+    for s, v in corpus:
+        cases.append(substcorr.SubCase(s, v, v, "corpus"))
     for c in cases:
         substcorr.run_real(c)
     oracle(ctx, cases)
